@@ -193,6 +193,17 @@ def run_c15(case):
             elif kind == "get":
                 rec = cassettes[op["cas"]].get_recording(op["id"])
                 list(rec.get_all_keys())
+                if op.get("keep") is not None:     # the caller keeps the fetched (open) recording: see "abort"
+                    slots[op["keep"]] = rec
+            elif kind == "abort":
+                # TapeCassette.abort_recording: "done with it, do not save" - on a fresh, a saved, a hand-made or a
+                # fetched recording, through any cassette of the case
+                rec = slots.get(op["slot"])
+                if rec is None:
+                    o["res"] = "no-slot"
+                else:
+                    o["closed_before"] = rec._closed
+                    cassettes[op["cas"]].abort_recording(rec)
             elif kind == "get_meta":
                 cassettes[op["cas"]].get_recording_metadata(op["id"])
             elif kind == "list":
